@@ -181,6 +181,11 @@ M = [
     ('C02', 'PGPKey.revoker', 'pgpy.pgp', "        prefs['revocable'] = False\n        return self._sign(self, sig, **prefs)", "        return self._sign(self, sig, **prefs)"),
     ('C02', 'PGPKey.revoker', 'pgpy.pgp', "                                         algorithm=revoker.key_algorithm,\n                                         fingerprint=revoker.fingerprint,", "                                         algorithm=self.key_algorithm,\n                                         fingerprint=revoker.fingerprint,"),
     ('C02', 'PGPKey.revoker[sens', 'pgpy.pgp', "        keyclass = RevocationKeyClass.Normal | (RevocationKeyClass.Sensitive if sensitive else 0x00)", "        keyclass = RevocationKeyClass.Normal"),
+    ('C19', '_add_key', 'pgpy.pgp', "            if pgpkey.parent is None:\n                if pgpkey.is_public:", "            if True:\n                if pgpkey.is_public:"),
+    ('C19', '_add_key', 'pgpy.pgp', "            self._add_alias(pgpkey.fingerprint.keyid, pkid)\n", ""),
+    ('C19', '_add_key', 'pgpy.pgp', "                if uid.email:\n                    self._add_alias(uid.email, pkid)", "                self._add_alias(uid.email, pkid)"),
+    ('C19', '_add_key', 'pgpy.pgp', "            for subkey in pgpkey.subkeys.values():\n                self._add_key(subkey)", "            pass"),
+    ('C19', '_add_key', 'pgpy.pgp', "                if pgpkey.is_public:\n                    self._pubkeys.append(pkid)\n\n                else:\n                    self._privkeys.append(pkid)", "                if not pgpkey.is_public:\n                    self._pubkeys.append(pkid)\n\n                else:\n                    self._privkeys.append(pkid)"),
     ('C19', '_sort_alias', 'pgpy.pgp', "            self._aliases[depth][alias] = pkid\n\n        # finally", "            self._aliases[0][alias] = pkid\n\n        # finally"),
     ('C19', '_sort_alias', 'pgpy.pgp', "        pkids = sorted(list(set().union(m.pop(alias) for m in self._aliases if alias in m)),", "        pkids = sorted(list(set().union(m[alias] for m in self._aliases if alias in m)),"),
     ('C19', '_add_alias', 'pgpy.pgp', "        elif alias in self and pkid in set(m[alias] for m in self._aliases if alias in m):", "        elif alias in self and pkid not in set(m[alias] for m in self._aliases if alias in m):"),
